@@ -466,8 +466,21 @@ def d3_dispatch(ctx):
             model = I.call(I.module_value(mod, "create_material_model_functions"), [props], {})
             e_cl = model.get("compute_energy_density")
             s_cl = model.get("compute_state_new")
-            strain_fn = e_cl.env.lookup("compute_elastic_strain")
-            upd_fn = s_cl.env.lookup("compute_state_new_func")
+            def _free_callee(cl, nargs_prefix):
+                """the captured function variable that the closure calls with its own leading parameters"""
+                ps_ = cl.scope.params()
+                for c_ in calls_in(cl.scope):
+                    if isinstance(c_.func, ast.Name) and len(c_.args) >= nargs_prefix and all(isinstance(a_, ast.Name) and a_.id == ps_[i_]
+                                                                                              for i_, a_ in enumerate(c_.args[:nargs_prefix])):
+                        try:
+                            v_ = cl.env.lookup(c_.func.id)
+                        except Exception:
+                            continue
+                        if isinstance(v_, Closure) and c_.func.id not in cl.scope.module.scope.bindings:
+                            return v_
+                raise KeyError("captured callee not found")
+            strain_fn = _free_callee(e_cl, 2)
+            upd_fn = _free_callee(s_cl, 3)
             init_fn = model.get("compute_initial_state")
         except (EvalError, Raised, KeyError, AttributeError) as ex:
             ctx.undecided(rule, fac, None, construct=f"kinematics={k}", detail=str(ex))
